@@ -454,14 +454,10 @@ var c17EnumConfigs = []C17Scenario{
 		Writers: [][]C12Chunk{{{Off: 0, N: 1}}, {{Off: 0, N: 2}}}, SyncAfter: []bool{false, false}, Readers: 1, ReadSteps: 1},
 }
 
-func c17EnumScenario(cfg int, tape []int) C17Scenario {
-	s := c17EnumConfigs[cfg]
-	s.Tape, s.DSYield, s.DSReadsOnly, s.Canonical = tape, true, true, true
-	return s
-}
-
-func TestC17Enum(t *testing.T) {
-	col := evidFor("C17")
+// runEnum enumerates every schedule of each configuration (stateless DFS, sharded by the first choices).
+// The quick tier takes the configurations listed in quickCfgs, the thorough tier all of them.
+func runEnum[S any](t *testing.T, prop string, configs []S, withTape func(S, []int) S, run func(*testing.T, S) Result, quickCfgs map[int]bool) {
+	col := evidFor(prop)
 	maxRuns := envInt("VERIF_ENUM_MAX", 40000)
 	shard, shards := envInt("VERIF_SHARD_INDEX", 0), envInt("VERIF_SHARDS", 1)
 	mine := func(prefix []int) bool {
@@ -472,24 +468,24 @@ func TestC17Enum(t *testing.T) {
 		return h%shards == shard
 	}
 	only := envInt("VERIF_ENUM_CFG", -1)
-	for cfg := range c17EnumConfigs {
+	for cfg := range configs {
 		if only >= 0 && cfg != only {
 			continue
 		}
-		if only < 0 && tier() != "thorough" && cfg != 0 && cfg != 4 {
-			continue // the quick tier enumerates the two smallest configurations
+		if only < 0 && tier() != "thorough" && !quickCfgs[cfg] {
+			continue
 		}
 		var longest int
 		runs, exhausted, nondet := enumerateSchedules(func(tape []int) ([]int, []int, bool) {
-			s := c17EnumScenario(cfg, tape)
-			res := runC17(t, s)
+			s := withTape(configs[cfg], tape)
+			res := run(t, s)
 			col.Case(s, res.NonTrivial, nil, "enumerated_schedule")
 			if len(res.TraceK) > longest {
 				longest = len(res.TraceK)
 			}
 			if res.Verdict != "" {
-				p := evidWriteReplay("C17", s, res.Verdict)
-				t.Fatalf("C17 violated: %s\nconfiguration %d, schedule: %v\nreplay: %s", res.Verdict, cfg, res.TraceK, p)
+				p := evidWriteReplay(prop, s, res.Verdict)
+				t.Fatalf("%s violated: %s\nconfiguration %d, schedule: %v\nreplay: %s", prop, res.Verdict, cfg, res.TraceK, p)
 			}
 			return res.TraceK, res.TraceN, false
 		}, maxRuns, 5, mine)
@@ -501,6 +497,13 @@ func TestC17Enum(t *testing.T) {
 		if nondet {
 			col.AddExtra(fmt.Sprintf("enum_cfg%d_nondeterministic", cfg), 1)
 		}
-		t.Logf("C17 enumeration cfg %d: %d schedules, exhausted=%v, nondeterministic=%v, longest=%d steps", cfg, runs, exhausted, nondet, longest)
+		t.Logf("%s enumeration cfg %d: %d schedules, exhausted=%v, nondeterministic=%v, longest=%d steps", prop, cfg, runs, exhausted, nondet, longest)
 	}
+}
+
+func TestC17Enum(t *testing.T) {
+	runEnum(t, "C17", c17EnumConfigs, func(s C17Scenario, tape []int) C17Scenario {
+		s.Tape, s.DSYield, s.DSReadsOnly, s.Canonical = tape, true, true, true
+		return s
+	}, runC17, map[int]bool{0: true, 4: true})
 }
